@@ -1,6 +1,7 @@
 import GlyModel.Api.Convert
 import GlyModel.Front.Spec
 import GlyProofs.Front.TreeShape
+import GlyProofs.Mono.ReactLoop
 /-
   C10 — Nothing is dropped silently: the meaning of `full`. (Property theorems only.)
 -/
@@ -79,5 +80,36 @@ theorem C10_tree_full (w : WalkCfg) (s : Start) (hf : s.floats = []) :
         true && w.nodeFull (if (s.begin.config.getD []).isEmpty then s.begin.d else s.begin.d ++ [(s.begin.config.getD [], w.tTYPE)])⟩
       (by simp)).1
     rw [this]; simp
+
+open Gly.React in
+/-- **The reactor's flag never recovers** (Model of `SMILESReaktor.react` over all its rounds, `React.reactLoop`, tied to reactor.py
+    by the side-chain table of every round and the returned flag): if `react` reports `full`, the flag was true on entry – an
+    unknown group seen in one round cannot be forgotten by a later round – for any number of rounds, any residue views, any tokens. -/
+theorem C10_react_full_never_recovers (views : List View) (mods : List (List Char)) (startLen : Nat) (full : Bool)
+    (acc cs : List Chains) (h : reactLoop views mods startLen full acc = .ok (cs, true)) : full = true :=
+  reactLoop_full views mods startLen full acc cs h
+
+open Gly.React in
+/-- … within a round the flag is the flag before and'ed with "this token's group was recognised", token by token … -/
+theorem C10_react_token_flag (v : View) (st st' : RState) (n : List Char) (h : reactToken v st n = .ok st') :
+    ∃ e, tokenEffect v st.chains n = .ok e ∧ st'.full = (st.full && e.recognised) := by
+  obtain ⟨e, he, hs⟩ := reactToken_full v st st' n h
+  exact ⟨e, he, by rw [hs, applyEffect_full_eq]⟩
+
+open Gly.React in
+/-- … and a round that can attach none of the groups it was given (all postponed again: positions the residue does not have) ends
+    the loop with `full = false`: nothing is dropped silently. -/
+theorem C10_react_stall_not_full (v : View) (vs : List View) (mods : List (List Char)) (startLen : Nat) (full : Bool)
+    (acc : List Chains) (st : RState) (hst : reactRoundFrom v mods full = .ok st) (hstall : st.higher.length = startLen) :
+    reactLoop (v :: vs) mods startLen full acc = .ok (acc ++ [st.chains], false) :=
+  reactLoop_stall v vs mods startLen full acc st hst hstall
+
+open Gly.React in
+/-- Non-vacuity: `Glc7S` – position 7 does not exist, the only modification is postponed, the next round stalls: not full;
+    `Glc6S` is full after one round. -/
+theorem C10_react_examples :
+    let glc : View := ⟨"Glc".toList, 6, [none, some 'O', some 'O', some 'O', some 'O', none, some 'O', none], 1, 6⟩
+    (reactAll [glc, glc] ["7S".toList] 2).map' (·.2) = some false ∧ (reactAll [glc] ["6S".toList] 2).map' (·.2) = some true := by
+  decide +kernel
 
 end Gly.Props.C10
